@@ -196,6 +196,14 @@ class Executor:
             if a.eq(b):
                 return a
             return z3.If(c, a, b)
+        sa = isinstance(a, tuple) and len(a) > 0 and isinstance(a[0], str)
+        sb = isinstance(b, tuple) and len(b) > 0 and isinstance(b[0], str)
+        if sa or sb:
+            # structural byte cells (iohash): atomic
+            from .iohash import cell_equal
+            if sa and sb and (a is b or (a[0] != "ic" and b[0] != "ic" and a[0] == b[0] and a[-1] == b[-1] and a[1] is b[1])):
+                return a
+            return ("ic", c, a, b)
         if isinstance(a, tuple) and isinstance(b, tuple) and len(a) == len(b):
             lt = None
             if tid is not None and not isinstance(tid, list):
@@ -219,7 +227,7 @@ class Executor:
                 return Slice(a.ptr, self.vite(c, a.len, b.len, "int"), self.vite(c, a.cap, b.cap, "int"), a.elem)
         if a is None and b is None:
             return None
-        if a == b and not is_term(a) and not is_term(b):
+        if not is_term(a) and not is_term(b) and not isinstance(a, (Guarded, tuple)) and not isinstance(b, (Guarded, tuple)) and a == b:
             return a
         return Guarded([(c, a), (b_not(c), b)])
 
@@ -372,7 +380,8 @@ class Executor:
                 cells = info["lazy"](self, off if isinstance(off, Ptr) else Ptr(oid, off), tid)
             else:
                 if off + n > info["n"]:
-                    raise Unsupported("load out of object bounds %s+%d>%d (%s)" % (off, n, info["n"], info["label"]))
+                    # the run-time bounds check (an obligation already recorded) excludes this case: infeasible
+                    continue
                 cells = [self.store[(oid, off + i)] for i in range(n)]
             if self.access_log is not None:
                 self.access_log.append((self.task, self.guard, oid, off, n, False))
@@ -380,6 +389,8 @@ class Executor:
                 res = cells
             else:
                 res = [self.vite(g, c1, c0, lay[i]) for i, (c1, c0) in enumerate(zip(cells, res))]
+        if res is None:
+            raise PathDead()
         return self.from_cells(res, tid)
 
     def store_to(self, p, val, tid):
@@ -394,7 +405,7 @@ class Executor:
                 self.ctx.obligations.append(Obligation("write to specification table " + info["label"], b_and(self.guard, g), "assert"))
                 continue
             if off + len(cells) > info["n"]:
-                raise Unsupported("store out of object bounds")
+                continue
             if self.access_log is not None:
                 self.access_log.append((self.task, b_and(self.guard, g), oid, off, len(cells), True))
             for i, c in enumerate(cells):
@@ -423,6 +434,30 @@ class Executor:
             raise PathDead()
         self.guard = b_and(self.guard, cond)
         self.partial = True
+
+    def unique_value(self, term):
+        """the single value a term can take under the current path condition (None if not unique / unknown)"""
+        s = self.ctx.solver
+        s.push()
+        try:
+            if self.guard is not True:
+                s.add(b_term(self.guard))
+            r0 = s.check()
+            if r0 == z3.unsat:
+                raise PathDead()
+            if r0 != z3.sat:
+                return None
+            v = s.model().eval(term, model_completion=True)
+            s.add(term != v)
+            if s.check() != z3.unsat:
+                return None
+            return v.as_long() if not z3.is_bool(v) else z3.is_true(v)
+        except PathDead:
+            raise
+        except Exception:
+            return None
+        finally:
+            s.pop()
 
     # ------------------------------------------------------------------ fork / merge
     def fork(self, cond, run_then, run_else):
